@@ -8,6 +8,7 @@ Four obligation groups (DESIGN 3/C02):
   axis/*     real ExchangeMap + real calcule_base + symbolic random draws on 1-, 2- and 3-atom references:
              distance to the anchor and coordinate along the axis are preserved for every argument conformation
 """
+import itertools
 import numpy as np
 import z3
 from symx.core import twin_record as core_twin
@@ -25,14 +26,17 @@ EXPLANATION = ('(a) the real calcule_base is executed on terms of an uninterpret
                'map(R ref + t) = R map(ref) + t holds for a free 3x3 matrix R and free t.  (c) for references that leave an axis '
                'undetermined (1 atom, 2 atoms with the real random completion drawn symbolically, collinear anchors) the real code '
                'runs end to end and the invariants of the statement (distance to the anchor, coordinate along the axis) are proved '
-               'for every argument conformation and every random draw.')
+               'for every argument conformation and every random draw.  (d) frame/*: the real calcule_base runs componentwise on a '
+               'symbolic non-collinear triple P and on R P + T (R elementary rotation with symbolic (c, s), T symbolic): on every feasible '
+               'pair of paths frame(R P + T) = R frame(P) and the origin moves with the triple (this also decides implementations of '
+               'calcule_base that leave the vector-level fragment of (a), e.g. tolerance-based collinearity tests).')
 BOUNDS = {'references': '1, 2, 3 atoms (axis invariants, all frame branches); 3-chain, 4-chain, 4-star, 4-ring (call plumbing)',
           'targets': '1-2 atoms', 'rotations': 'SO(3) through generators (elementary rotations, closure under composition)',
           'translations / scale': 'unbounded reals'}
 OUTSIDE = ['binary64 rounding ("up to system-box scale" is irrelevant over the reals)',
            'Euler decomposition of SO(3) into elementary rotations (classical fact, trusted)',
            'the random completion point coinciding exactly with the atom (probability-zero draw)']
-STUBS = ['uninterpreted-sort numpy shim for calcule_base (euf/*): cross, linalg.norm, any, -, /',
+STUBS = ['numpy.isclose / allclose over the reals: |a-b| <= atol + rtol |b| (frame/*)', 'uninterpreted-sort numpy shim for calcule_base (euf/*): cross, linalg.norm, any, -, /',
          'calcule_base contract stub in call/* (free frame; second call = R.frame, justified by euf/*)',
          'np.random.rand -> fresh symbolic draws in [0,1)']
 ASSUMPTIONS = ['references with three or more anchors: no two anchors exactly equidistant from a target atom', 'atoms at distinct positions', 'exact real arithmetic', 'random completion vectors are non-zero']
@@ -44,6 +48,8 @@ def cases(tier):
     cs = [{'name': 'euf/equivariance'}, {'name': 'euf/closure'}]
     for ax in 'xyz':
         cs.append({'name': 'axioms/R' + ax, 'axis': ax})
+    for ax in 'xyz':
+        cs.append({'name': 'frame/R' + ax, 'axis': ax})
     graphs = {'chain3': (3, [(0, 1), (1, 2)]), 'chain4': (4, [(0, 1), (1, 2), (2, 3)]), 'star4': (4, [(0, 1), (0, 2), (0, 3)]),
               'ring4': (4, [(0, 1), (1, 2), (2, 3), (0, 3)])}
     if tier == 'thorough':
@@ -155,12 +161,17 @@ def _euf(case, cap):
         state.update(pc=[], dec=[True, True], pos=0)
         try:
             (v1, v2, v3), o = aux.calcule_base(p)
-        except Abort as e:
-            records.append({'name': 'generic branch of calcule_base leaves the vector-level fragment (%s): rotation equivariance not decidable at vector level' % e,
+        except (Abort, Exception) as e:
+            # operations outside {-, /, cross, norm, any}: inconclusive at vector level (frame/* decides componentwise)
+            records.append({'name': 'generic branch of calcule_base leaves the vector-level fragment (%s: %s): rotation equivariance not decidable at vector level, see frame/*' % (type(e).__name__, str(e)[:80]),
                             'status': 'unknown', 'secs': 0})
             return {'records': records, 'paths': 1, 'queries': 0, 'solver_s': 0, 'samples': [], 'nontrivial': []}
         pc1 = list(state['pc'])
-        (w1, w2, w3), o2 = aux.calcule_base(q)
+        try:
+            (w1, w2, w3), o2 = aux.calcule_base(q)
+        except (Abort, Exception) as e:
+            records.append({'name': 'calcule_base on the moved triple leaves the vector-level fragment (%s): see frame/*' % type(e).__name__, 'status': 'unknown', 'secs': 0})
+            return {'records': records, 'paths': 1, 'queries': 0, 'solver_s': 0, 'samples': [], 'nontrivial': []}
         pc_all = list(state['pc'])
         paths += 1
         for nm, a, b in (('v1', v1, w1), ('v2', v2, w2), ('v3', v3, w3)):
@@ -242,7 +253,10 @@ def _call(case, cap):
         key = tuple(z3.simplify(expr(x)).sexpr() for p in pos for x in p)
         stub_state['calls'].append(key)
         if stub_state['moved']:
-            base = stub_state['frames'][stub_state['keymap'][key]]
+            k0 = stub_state['keymap'][key]
+            if k0 not in stub_state['frames']:       # a triple the reference call did not use: its frame is a free frame too
+                stub_state['frames'][k0] = [np.array([SymReal(c.freshvar('F%d%d_' % (j, k))) for k in range(3)], dtype=object) for j in range(3)]
+            base = stub_state['frames'][k0]
             Rm = np.array([[SymReal(v) for v in row] for row in Rv], dtype=object)
             return tuple(Rm.dot(v) for v in base), pos[0]
         if key not in stub_state['frames']:
@@ -269,17 +283,18 @@ def _call(case, cap):
         tgt = make_molecule('TGT', simple_atoms(nt, 'A', 'TGT'), [(j, j + 1) for j in range(nt - 1)], [[SymReal(v) for v in row] for row in tv])
         m = ExchangeMap(ref, tgt, SymReal(s))
         ncalls_construct = len(stub_state['calls'])
+        pc_mark0 = len(ctx.pc)
         out = m(ref).atoms_positions
-        for a in ref:
-            if len(a.bonds) >= 2:
-                i1, i2 = a.closest_atoms()
-                idx = [a.index, i1, i2]
-                k0 = tuple(z3.simplify(expr(x)).sexpr() for i in idx for x in refc[i])
-                k1 = tuple(z3.simplify(expr(x)).sexpr() for i in idx for x in movc[i])
-                stub_state['keymap'][k1] = k0
+        # contract: the frame of a moved triple is R.(frame of the same triple in the reference), whichever neighbours
+        # the code under test picks for an anchor
+        for idx in itertools.permutations(range(n), 3):
+            k0 = tuple(z3.simplify(expr(x)).sexpr() for i in idx for x in refc[i])
+            k1 = tuple(z3.simplify(expr(x)).sexpr() for i in idx for x in movc[i])
+            stub_state['keymap'][k1] = k0
         stub_state['moved'] = True
         mark = len(stub_state['calls'])
         out2 = m(mov).atoms_positions
+        stub_state['call_pc'] = (pc_mark0, len(ctx.pc))
         nc2 = len(stub_state['calls']) - mark
         # the same molecule object moved in place by the caller (rotate / move), then mapped again
         stub_state['moved'] = False
@@ -290,7 +305,37 @@ def _call(case, cap):
         out3 = m(same).atoms_positions
         return out, out2, ncalls_construct, nc2, Rm, Tm, out3
 
-    for ctx, res, exc in explore(run, max_paths=3000):
+    def two_sided(cond):
+        """an ordering / equality test between two computed (non-constant) quantities -> (lhs, rhs) or None"""
+        e = cond
+        while z3.is_not(e):
+            e = e.arg(0)
+        if not (z3.is_lt(e) or z3.is_le(e) or z3.is_gt(e) or z3.is_ge(e) or z3.is_eq(e) or z3.is_distinct(e)) or e.num_args() != 2:
+            return None
+        a, b = e.arg(0), e.arg(1)
+        if not (z3.is_arith(a) and z3.is_arith(b)):
+            return None
+        from symx.core import term_vars
+        if not term_vars(a) or not term_vars(b):
+            return None
+        return a, b
+
+    def _upto(ctx, i):
+        import copy
+        c2 = copy.copy(ctx)
+        c2.pc = ctx.pc[:i]
+        return c2
+
+    from symx.core import Budget
+    tie_seen = {'n': 0, 'inspected': 0}
+
+    def paths():
+        try:
+            yield from explore(run, max_paths=3000, max_seconds=0.55 * CASE_TIMEOUT[case.get('tier', 'quick')])
+        except Budget as e:
+            records.append({'name': 'exploration incomplete (%s): remaining paths undecided' % e, 'status': 'unknown', 'secs': 0})
+
+    for ctx, res, exc in paths():
         st['paths'] += 1
         pidx = st['paths']
         if res is None:
@@ -300,6 +345,22 @@ def _call(case, cap):
         out, out2, nc, nc2, Rm, Tm, out3 = res
         if pidx == 1:
             records.append(core_twin(ctx, cap))
+        # rounding decides ties: binary64 gives two quantities that are equal over the reals an arbitrary order.  An
+        # ordering test between two computed quantities inside __call__ whose operands can be equal is therefore a
+        # candidate for a motion-dependent result; the candidate is confirmed (or not) by the binary64 replay.
+        lo, hi = stub_state.get('call_pc', (0, 0))
+        for i in range(lo, min(hi, len(ctx.pc))):
+            ts = two_sided(ctx.pc[i])
+            tie_seen['inspected'] += 1
+            if ts is None or tie_seen['n'] >= 3:
+                continue
+            r, mo = ctx._check([ts[0] == ts[1]], 20000, want_model=True, upto=i)
+            if r == 'sat':
+                tie_seen['n'] += 1
+                records.append({'name': 'path%d: __call__ orders two computed quantities that can be exactly equal (%s): rounding would decide' % (pidx, str(z3.simplify(ctx.pc[i]))[:80]),
+                                'status': 'sat', 'secs': 0,
+                                'witness': {'kind': 'call', 'n': n, 'edges': edges, 'nt': nt, 'tie': True,
+                                            'inputs': concretize_inputs(_upto(ctx, i), [ts[0] == ts[1]], inputs, mo, grids=(1, 2, 8, 64))}})
         nanch = sum(1 for i in range(n) if sum(1 for e in edges if i in e) >= 2)
         ok = nc == nanch and nc2 == nanch
         records.append({'name': 'path%d: frames recomputed from the argument for every anchor on each call (%d anchors, %d/%d frame calls)' % (pidx, nanch, nc, nc2),
@@ -320,6 +381,103 @@ def _call(case, cap):
             records.append(rec)
         if len(samples) < 2:
             samples.append({'graph': edges, 'path_condition': [str(p)[:80] for p in ctx.pc][:4]})
+        st['queries'] += ctx.queries; st['solver_s'] += ctx.solver_time
+    if not tie_seen['n']:
+        records.append({'name': 'no ordering test between two computed quantities that can tie inside __call__ (%d branch conditions inspected)' % tie_seen['inspected'],
+                        'status': 'unsat', 'secs': 0})
+    return {'records': records, 'paths': st['paths'], 'queries': st['queries'], 'solver_s': st['solver_s'], 'samples': samples, 'nontrivial': nontrivial}
+
+
+def _frame(case, cap):
+    """the real calcule_base, componentwise, on a non-collinear triple P and on R P + T (R an elementary rotation with
+    symbolic (c, s), T a symbolic translation): on every feasible path frame(R P + T) = R frame(P), origin moved with it"""
+    from symx.core import explore, SymReal, expr, concretize_inputs
+    from symx import npx
+    npx.install()
+    import gaddlemaps._auxilliary as aux
+    ax = case['axis']
+    records, samples, nontrivial = [], [], []
+    st = {'paths': 0, 'queries': 0, 'solver_s': 0.0}
+    c, s_ = z3.Real('c'), z3.Real('s')
+    R = {'x': [[1, 0, 0], [0, c, -s_], [0, s_, c]], 'y': [[c, 0, s_], [0, 1, 0], [-s_, 0, c]], 'z': [[c, -s_, 0], [s_, c, 0], [0, 0, 1]]}[ax]
+    pv = [[z3.Real('p%d_%d' % (i, k)) for k in range(3)] for i in range(3)]
+    Tv = [z3.Real('T%d' % k) for k in range(3)]
+    tpar = z3.Real('tpar')
+    rot = lambda v: [sum(R[i][j] * v[j] for j in range(3)) for i in range(3)]
+    inputs = {'p%d_%d' % (i, k): pv[i][k] for i in range(3) for k in range(3)}
+    inputs.update({'T%d' % k: Tv[k] for k in range(3)})
+    small = min(cap, 40000)
+
+    def run(ctx):
+        ctx.assume(c * c + s_ * s_ == 1)
+        a = [pv[2][k] - pv[0][k] for k in range(3)]
+        b = [pv[1][k] - pv[0][k] for k in range(3)]
+        cr = [a[1] * b[2] - a[2] * b[1], a[2] * b[0] - a[0] * b[2], a[0] * b[1] - a[1] * b[0]]
+        ctx.assume(z3.Or(*[x != 0 for x in cr]))           # the three atoms are not collinear (collinear anchors: axis/ref3)
+        P = [np.array([SymReal(v) for v in row], dtype=object) for row in pv]
+        Q = [np.array([SymReal(rot(row)[k] + Tv[k]) for k in range(3)], dtype=object) for row in pv]
+        fP, oP = aux.calcule_base(P)
+        fQ, oQ = aux.calcule_base(Q)
+        return fP, oP, fQ, oQ
+
+    def wit(ctx, claim, model):
+        # rational parametrisation of the rotation for the replay: c = (1-t^2)/(1+t^2), s = 2t/(1+t^2)
+        extra = [z3.Not(claim), c * (1 + tpar * tpar) == 1 - tpar * tpar, s_ * (1 + tpar * tpar) == 2 * tpar]
+        r, m2 = ctx._check(extra, 20000, want_model=True)
+        if r == 'sat':
+            return {'kind': 'frame', 'axis': ax, 'inputs': concretize_inputs(ctx, extra, dict(inputs, tpar=tpar), m2, grids=(1, 2, 8, 64))}
+        return {'kind': 'frame', 'axis': ax, 'inputs': concretize_inputs(ctx, [z3.Not(claim)], dict(inputs, c=c, s=s_), model, grids=(1, 2, 8, 64))}
+
+    for ctx, res, exc in explore(run, max_paths=60):
+        st['paths'] += 1
+        pidx = st['paths']
+        if res is None:
+            r, m_ = ctx._check([], small, want_model=True)
+            rec = {'name': 'path%d: calcule_base returns a finite frame for a non-collinear triple and its rigidly moved copy (%r)' % (pidx, exc), 'status': r, 'secs': 0}
+            if r == 'sat':
+                rec['witness'] = wit(ctx, z3.BoolVal(False), m_)
+            records.append(rec)
+            st['queries'] += ctx.queries; st['solver_s'] += ctx.solver_time
+            continue
+        nontrivial.append('path%d' % pidx)
+        fP, oP, fQ, oQ = res
+        if pidx == 1:
+            records.append(core_twin(ctx, cap))
+        claim = z3.And(*[expr(oQ[k]) == rot([expr(x) for x in oP])[k] + Tv[k] for k in range(3)])
+        r, secs, mo = ctx.prove(claim, small)
+        rec = {'name': 'path%d: origin(R P + T) = R origin(P) + T' % pidx, 'status': r, 'secs': secs}
+        if r == 'sat':
+            rec['witness'] = wit(ctx, claim, mo)
+        records.append(rec)
+        proven, pending = [], []
+        for j in range(3):
+            want = rot([expr(fP[j][k]) for k in range(3)])
+            claim = z3.And(*[expr(fQ[j][k]) == want[k] for k in range(3)])
+            r, secs, mo = ctx.prove(claim, small)
+            if r == 'unknown':
+                pending.append((j, claim)); continue
+            rec = {'name': 'path%d: frame vector %d of (R P + T) = R (frame vector %d of P)' % (pidx, j + 1, j + 1), 'status': r, 'secs': secs}
+            if r == 'sat':
+                rec['witness'] = wit(ctx, claim, mo)
+            else:
+                proven.append(j)
+            records.append(rec)
+        for j, claim in pending:
+            # the vectors already shown equivariant are abstracted (fresh variables tied by the proved equalities): what is
+            # left is the algebraic identity that builds this vector from them
+            sub, lem = [], []
+            for i in proven:
+                qa = [z3.Real('fq%d_%d!abs' % (i, k)) for k in range(3)]
+                pa = [z3.Real('fp%d_%d!abs' % (i, k)) for k in range(3)]
+                sub += [(expr(fQ[i][k]), qa[k]) for k in range(3)] + [(expr(fP[i][k]), pa[k]) for k in range(3)]
+                lem += [qa[k] == rot(pa)[k] for k in range(3)]
+            r, secs, mo = ctx.prove_abstracted(claim, sub, lem, small) if sub else ctx.prove(claim, cap)
+            rec = {'name': 'path%d: frame vector %d of (R P + T) = R (frame vector %d of P) [other vectors abstracted]' % (pidx, j + 1, j + 1), 'status': r, 'secs': secs}
+            if r == 'sat':
+                rec['witness'] = wit(ctx, claim, mo)
+            records.append(rec)
+        if len(samples) < 2:
+            samples.append({'axis': ax, 'path_condition': [str(z3.simplify(p_))[:90] for p_ in ctx.pc][:4]})
         st['queries'] += ctx.queries; st['solver_s'] += ctx.solver_time
     return {'records': records, 'paths': st['paths'], 'queries': st['queries'], 'solver_s': st['solver_s'], 'samples': samples, 'nontrivial': nontrivial}
 
@@ -451,6 +609,8 @@ def run_case(case):
         return _axioms(case, cap)
     if nm.startswith('call/'):
         return _call(case, cap)
+    if nm.startswith('frame/'):
+        return _frame(case, cap)
     return _axis(case, cap)
 
 
@@ -486,6 +646,32 @@ def replay(w):
                 break
         return {'reproduced': bool(bad), 'what': 'ExchangeMap rigid-motion equivariance (%d-atom reference): %s' % (n, '; '.join(bad)),
                 'detail': {'ref': Rr.tolist(), 'edges': edges}}
+    if w['kind'] == 'frame':
+        # the triple handed to calcule_base for the middle atom of a 3-chain is [atom 1, atom 0, atom 2]
+        p = np.array([[v['p%d_%d' % (i, k)] for k in range(3)] for i in range(3)])
+        X = np.array([p[1], p[0], p[2]])
+        if 'tpar' in v:
+            c, s_ = (1 - v['tpar'] ** 2) / (1 + v['tpar'] ** 2), 2 * v['tpar'] / (1 + v['tpar'] ** 2)
+        else:
+            h = np.hypot(v['c'], v['s']); c, s_ = v['c'] / h, v['s'] / h
+        Rot = {'x': np.array([[1, 0, 0], [0, c, -s_], [0, s_, c]]), 'y': np.array([[c, 0, s_], [0, 1, 0], [-s_, 0, c]]),
+               'z': np.array([[c, -s_, 0], [s_, c, 0], [0, 0, 1]])}[w['axis']]
+        T0 = np.array([v['T%d' % k] for k in range(3)])
+        mk = lambda C: make_molecule('REF', simple_atoms(3, 'C', 'REF'), [(0, 1), (1, 2)], C)
+        worst = 0.0
+        for tg in ([[0.3, 0.5, 0.7]], [[-0.4, 0.2, 0.6]]):
+            tgt = make_molecule('TGT', simple_atoms(1, 'A', 'TGT'), [], X[1] + np.array(tg))
+            with np.errstate(all='ignore'):
+                m = ExchangeMap(mk(X), tgt, 1.0)
+                out = m(mk(X)).atoms_positions
+                for Rm, t in ((Rot, T0), (np.eye(3), T0), (Rot, np.zeros(3)), (Rot.T, -T0)):
+                    out2 = m(mk(X @ Rm.T + t)).atoms_positions
+                    dev = np.abs(out2 - (out @ Rm.T + t)).max()
+                    worst = max(worst, dev if np.isfinite(dev) else np.inf)
+        if worst > 1e-8:
+            bad.append('map(R ref + t) != R map(ref) + t for a non-collinear 3-atom reference (max deviation %.3g nm)' % worst)
+        return {'reproduced': bool(bad), 'what': 'ExchangeMap rigid-motion equivariance, witness motion (rotation about %s, translation %s): %s' % (
+            w['axis'], np.round(T0, 3).tolist(), '; '.join(bad)), 'detail': {'ref': X.tolist(), 'c': c, 's': s_}}
     n, nt = w['n'], w['nt']
     edges = [(i, i + 1) for i in range(n - 1)]
     X = np.array([[v['x%d_%d' % (i, k)] for k in range(3)] for i in range(n)])
